@@ -589,6 +589,9 @@ type cutCase struct {
 	DelayMicros uint32 `json:"batch_delay_micros,omitempty"`
 	// Status: cut kind "status": the backend answers that request with this error status instead
 	Status uint16 `json:"status,omitempty"`
+	// SlowMs: a caller of get/gete pauses this long after every response it receives (a slow
+	// consumer: it is not waiting on its response channel when the connection is cut)
+	SlowMs int `json:"slow_consumer_ms,omitempty"`
 }
 
 func c13(e *env) {
@@ -745,6 +748,20 @@ func c13(e *env) {
 			{Kind: "get", Items: []stack.GItem{{Key: []byte("d-a"), Opaque: 1}, {Key: []byte("d-a"), Opaque: 2}, {Key: []byte("d-a"), Opaque: 3}}}}}},
 	} {
 		runCutCase(e, w, dc)
+	}
+	// a multi-key get (every key non-quiet: each hit is delivered at once) whose connection is cut
+	// between two replies while the caller is busy with the hit it just received (slow consumer), on
+	// the first try and again on the retries: whatever the caller gets in the end is all the keys or an error
+	for _, kd := range []string{"get", "gete"} {
+		for _, at := range []int{4, 5} {
+			for _, rep := range []int{0, 1, 2, 3} {
+				for _, ck := range []string{"close-before", "close-after-apply"} {
+					runCutCase(e, w, cutCase{Pool: 1, CutAt: at, CutKind: ck, Repeat: rep, SlowMs: 15, Callers: [][]hCall{{
+						{Kind: "set", Key: "s-a", Data: []byte("value-a"), Flags: 1, TTL: 600}, {Kind: "set", Key: "s-b", Data: []byte("value-b"), Flags: 2, TTL: 600}, {Kind: "set", Key: "s-c", Data: []byte("value-c"), Flags: 3, TTL: 600},
+						{Kind: kd, Items: []stack.GItem{{Key: []byte("s-a"), Opaque: 1}, {Key: []byte("s-b"), Opaque: 2}, {Key: []byte("s-c"), Opaque: 3}}}}}})
+				}
+			}
+		}
 	}
 	// (B2) Handler.doRequest against its model (handlers/BatchedRetry.v): one single-key call,
 	// each of its (at most two) submissions cut before or after the backend applied it
@@ -961,6 +978,9 @@ func runCutCase(e *env, w *rig.Writer, c cutCase) {
 									} else {
 										n++
 										hits = append(hits, g)
+										if c.SlowMs > 0 {
+											time.Sleep(time.Duration(c.SlowMs) * time.Millisecond)
+										}
 									}
 								case e, ok := <-ec:
 									if !ok {
@@ -980,6 +1000,9 @@ func runCutCase(e *env, w *rig.Writer, c cutCase) {
 									} else {
 										n++
 										hits = append(hits, common.GetEResponse{Key: g.Key, Data: g.Data, Flags: g.Flags, Miss: g.Miss, Opaque: g.Opaque, Quiet: g.Quiet})
+										if c.SlowMs > 0 {
+											time.Sleep(time.Duration(c.SlowMs) * time.Millisecond)
+										}
 									}
 								case e, ok := <-ec:
 									if !ok {
